@@ -47,6 +47,7 @@ type Rec struct {
 	Notes      map[string]int64 // free-form buckets (info, skipped reasons)
 	violations []Violation
 	maxSamples int
+	emit       func(Violation) // set by the worker: violations are written out at once (a later hang must not lose them)
 }
 
 func NewRec() *Rec {
@@ -59,7 +60,13 @@ func (r *Rec) Sample(s interface{}) {
 		r.Samples = append(r.Samples, s)
 	}
 }
-func (r *Rec) Violation(v Violation) { r.violations = append(r.violations, v) }
+func (r *Rec) Violation(v Violation) {
+	if r.emit != nil {
+		r.emit(v)
+		return
+	}
+	r.violations = append(r.violations, v)
+}
 
 type Check struct {
 	ID          string
@@ -108,6 +115,12 @@ func Worker(c *Ctx, ck *Check, shard, n, from int, out io.Writer) {
 	}
 	total := ck.Cases(c)
 	rec := NewRec()
+	emit := func(v Violation) {
+		b, _ := json.Marshal(wireMsg{V: &v})
+		fmt.Fprintf(w, "M %s\n", b)
+		w.Flush()
+	}
+	rec.emit = emit
 	flush := func() {
 		for _, v := range rec.violations {
 			vv := v
@@ -119,6 +132,7 @@ func Worker(c *Ctx, ck *Check, shard, n, from int, out io.Writer) {
 		w.Flush()
 		ns := len(rec.Samples)
 		rec = NewRec()
+		rec.emit = emit
 		rec.maxSamples -= ns
 		if rec.maxSamples < 0 {
 			rec.maxSamples = 0
